@@ -38,6 +38,10 @@ CHECKS = {
             "reference-model runtime monitor for locations: the reference interpreter supplies the stack of executing statements, the real error's 'at file:line:col' trace is checked frame by frame against their source spans; errors.Is/As probes for sentinels and host errors",
             "Failing programs (planted failure of 30 kinds at call depth 0..12 behind functions with removable dead code, in main and in modules, multi-line and shared-line statements; generated programs with ill-typed operations) are run by the real engine and by the reference interpreter; message, frame count and containment of every reported position in the span of the statement executing in that frame are checked. Sentinels (allocation limit, stack overflow, index out of bounds, string/bytes limit) and a host error type are provoked at random depth and must be recognisable through errors.Is / errors.As. Held on the programs listed in evidence.",
             "Trusted: the reference interpreter's notion of 'statement executing' (innermost simple statement, or the if/for/for-in statement for its header expressions); parser node spans."),
+    "C16": ("exploration",
+            "runtime monitor on the hooked VM state (frame index sampled by the probe at every dispatched instruction) combined with an executable model of the equivalent loop computed by the harness",
+            "Generated self-recursive functions (1-6 parameters, variadic, locals, closures capturing parameters in chosen iterations) with the self call in tail, non-tail and free syntactic positions are run at depths up to 10^6; the result must equal the equivalent loop computed in Go, closures must report the parameter values of their own iteration, the maximum frame index must stay constant for tail positions and grow with the depth for non-tail positions; entering tail recursion from the last available frame and the discarded-result call form are probed. Held on the functions listed in evidence.",
+            "Trusted: Go int64 arithmetic as the equivalent loop; the probe's frame index."),
     "C17": ("exploration",
             "differential runtime monitor: fmt.Sprintf as executable oracle over generated directives, 3 entry points, small-MaxStringLen family, totality under recover",
             "Every generated format call is executed by the real formatter (tengo.Format, builtin format, fmt.sprintf in a compiled script) and its text is compared byte-for-byte with fmt.Sprintf on the corresponding Go values; arbitrary format bytes and all object kinds are run under recover for totality; a family runs with MaxStringLen in {16,64,300} and requires text equality or ErrStringLimit exactly when Go's text exceeds the limit. Held on the executions listed in evidence, nothing is proved.",
